@@ -13,9 +13,12 @@ U10 == L10 \cup { P(e) : e \in {Id("a"), SelE(Id("a"), "b")} } \cup { <<"Pre", "
            \cup { <<"Call", SelE(Id("a"), "f"), <<Id("b")>>, FALSE>>, <<"Call", Id("recs"), <<Id("b"), <<"Arr", <<Id("c")>>>>>>, TRUE>>,
                   <<"Sel", Call1("f", Id("b")), "k", FALSE>>, <<"Sel", P(Id("a")), "b", FALSE>>, <<"Arr", <<Id("a"), Id("c")>>>>, <<"Arr", <<>>>> }
            \cup { Asg("$l", e) : e \in {Id("b"), N(1), SelE(Id("a"), "k")} } \cup { Asg("b", N(1)), <<"Bin", "=", SelE(Id("a"), "k"), Id("c")>> }
+RECURSIVE Chain10(_, _)
+Chain10(e, n) == IF n = 0 THEN e ELSE Chain10(SelE(e, IF n % 2 = 0 THEN "b" ELSE "k"), n - 1)
 GroupsC10 == { <<"one">> } \cup { <<"bin", a>> : a \in U10 } \cup { <<"cond", c>> : c \in {Id("e"), Id("b"), SelE(Id("a"), "k")} }
 GroupProgramsC10(g) ==
   CASE g[1] = "one" -> U10 \cup { <<"Arr", <<x, y, x>>>> : x \in {Id("B"), Id("b"), SelE(Id("a"), "b")}, y \in {Id("b"), Id("B"), SelE(Id("A"), "b"), Id("c")} }
+                           \cup { Chain10(Id("a"), 13), <<"Bin", "+", Chain10(Id("b"), 15), Id("c")>>, Chain10(Id("$l"), 14) }      \* long paths keep their segment order
                            \cup { <<"Arr", <<x, y, z, x, y>>>> : x \in {Id("b")}, y \in {Id("B")}, z \in {Id("c"), Id("C")} }      \* repeated and interleaved occurrences: no duplicates
     [] g[1] = "bin" -> { <<"Bin", op, g[2], b>> : op \in {"+", ",", "&&", "==="}, b \in {x \in U10 : Level(x) >= 11} }
     [] g[1] = "cond" -> { <<"Cond", g[2], a, b>> : a \in U10, b \in {Id("c"), SelE(Id("a"), "b"), Id("$l"), N(1)} }
